@@ -374,7 +374,10 @@ class C17(Prop):
             "shared relay functions, methods, closures, lambdas, generator expressions, class bodies, module level, "
             "raise-from / implicit context / from None / finally / with / bare re-raise) x selectors (none, count, single, "
             "list, range, open range, partial file:line:function patterns, malformed) x include/exclude lists (valid, invalid, "
-            "empty, wrong types) x forced-unpicklable subsets x umasks x pre-existing file, through pyflyby.saveframe, the "
+            "empty, wrong types; names drawn also from soft keywords, _, __, dunders, digits, non-ASCII identifiers) x "
+            "bytes/bytearray locals incl. bytes that are pickles x forced-unpicklable subsets x umasks x pre-existing file x "
+            "reader query SEQUENCES on one reader (every query, then all again shuffled, then single-variable forms a third "
+            "time), through pyflyby.saveframe, the "
             "script-mode validation + internal save function, and bin/saveframe run in-process; plus a systematic scope on one "
             "fixed chained stack (every pattern of every frame, ranges between them, filter forms, umasks); a case is "
             "non-trivial when at least one frame was saved; distinct by program+arguments")
@@ -384,7 +387,9 @@ class C17(Prop):
                     "tries pickle.dumps itself); load(dump(v)) == v is assumed for picklable values",
                     "the kernel's rule for the mode of a file created by open(O_CREAT) (mode & ~umask; an existing file keeps its "
                     "mode) is modelled; the real mode is checked with os.stat on the real file system",
-                    "str.isidentifier is modelled for ASCII names only; int(str) for ASCII digits only",
+                    "str.isidentifier is exact for ASCII names; every non-ASCII character is taken to be an identifier character "
+                    "(the generators only use such: \u00e9, \u5909\u6570); a valid name is an identifier that is not a HARD keyword "
+                    "(soft keywords _, match, case, type are valid); int(str) for ASCII digits only",
                     "not modelled: _validate_filename, _get_frame_metadata's best-effort lookups (module name, source line, "
                     "function object are opaque inputs; the oracle checks module name and source line against the live frame)"]
     assumptions = ["C17_filter_partial: D7 does not strike (d7free: a passed include list keeps at least one valid name) and "
@@ -470,7 +475,7 @@ class C17(Prop):
     EX_HEADER = "import os as _os\nfrom gen_c17 import Tog, P, BadReduce, Ctx, AppError, REG as _REG\n\n"
     EX_FILES = {
         "pkg/alpha.py": EX_HEADER + (
-            "def load(_i):\n    data = [1, 2]\n    secret = 'p@ss'\n    try:\n        _REG['s1'](1)\n"
+            "def load(_i):\n    data = [1, 2]\n    secret = 'p@ss'\n    type = 'record'\n    _ = b'\\x89PNG'\n    try:\n        _REG['s1'](1)\n"
             "    except Exception:\n        h = 'ctx'\n        raise KeyError('ctx')\n_REG['s0'] = load\n\n"
             "def rec(_i, n=2):\n    level = n\n    if n > 0:\n        return rec(_i, n - 1)\n    return _REG['s2'](2)\n"
             "_REG['s1'] = rec\n"),
@@ -479,7 +484,8 @@ class C17(Prop):
             "    def __hash__(self):\n        return 1\n    def __repr__(self):\n        return 'K()'\n"
             "    def run(self, _i):\n        x = Tog(0, 'v')\n        y = (lambda: 0)\n        __dd = 5\n        return _REG['s3'](3)\n"
             "_REG['s2'] = K().run\n\n"
-            "def load(_i):\n    total = P(3)\n    secret = Tog(1, 0)\n    raise ValueError('boom')\n_REG['s3'] = load\n"),
+            "def load(_i):\n    total = P(3)\n    secret = Tog(1, 0)\n    match = [1, 2]\n    case = 3\n    type = b'I7\\n.'\n"
+            "    \u00e9 = 'e'\n    \u5909\u6570 = bytearray(b'ab')\n    blob = __import__('pickle').dumps({'answer': 42})\n    raise ValueError('boom')\n_REG['s3'] = load\n"),
     }
     EX_SIMPLE = {"gamma.py": EX_HEADER + "def run(_i):\n    x = 1\n    secret = 'p@ss'\n    raise ValueError('boom')\n_REG['s0'] = run\n"}
 
@@ -513,7 +519,12 @@ class C17(Prop):
                 out.append(self._mk(self.EX_FILES, frames=(",".join(s_) if isinstance(s_, list) else s_), utility="script",
                                     n_tog=2, qseed=len(out)))
         filt = [None, "x", "secret", ["x", "secret"], ["1bad"], ["x", "1bad"], [], "", ["class"], ["nosuch"], " x ", "x,secret",
-                ["__dd"], ["_i"], 5, ["x", 5]]
+                ["__dd"], ["_i"], 5, ["x", 5],
+                # legal names that only look special: soft keywords, `_`, non-ASCII identifiers, digits
+                ["type"], "type", ["_"], "_", ["match", "x"], ["case", "match", "total"], ["type", "_", "secret"],
+                ["\u00e9"], ["\u5909\u6570", "case"], "match,case", " type , blob", ["blob", "type"], ["__"],
+                # the malformed stream: hard keywords and non-identifiers next to valid names
+                ["class", "type"], ["match", "1bad"], "for,match", ["None", "_"]]
         for f_ in filt:
             for u in ("function", "script"):
                 if u == "script" and not (f_ is None or isinstance(f_, str)):
@@ -835,7 +846,16 @@ class C17(Prop):
         from pyflyby import SaveframeReader
         rd = SaveframeReader(out)
         res = []
-        for q in self._queries(case, data):
+        qs = self._queries(case, data)
+        # ONE reader object answers the whole sequence: every query once, then every query again in another order
+        # (same variable twice, other forms, interleaved with other variables and metadata), then the single-variable
+        # forms a third time.  A reader that keeps state between queries must still give the fresh-reader answers.
+        rng2 = random.Random("%s:again" % case.get("qseed", 0))
+        again = list(qs)
+        rng2.shuffle(again)
+        third = [q for q in qs if q["q"] == "gv" and isinstance(q["vars"], str)]
+        seq = [dict(q, n=1) for q in qs] + [dict(q, n=2) for q in again] + [dict(q, n=3) for q in third]
+        for q in seq:
             try:
                 if q["q"] == "metadata":
                     r = rd.metadata
@@ -849,6 +869,10 @@ class C17(Prop):
             except Exception as e:
                 res.append(dict(q=q, err=classify_reader_error(e)))
         return res
+
+    @staticmethod
+    def _plain_query(q):
+        return {k: v for k, v in q.items() if k != "n"}
 
     # expected reader answers, recomputed from the raw saved mapping by the documentation
     def _reader_expected(self, q, saved, root=None):
